@@ -374,11 +374,30 @@ class Verifier:
             if name in st.env:
                 st.env[name] = self.make(B.type_of_value(st.env[name]), st, name)
 
+    def _loop_roles(self, node, sp, st):
+        """what a loop spec may refer to without naming locals of the function: the iterated sequence, the
+        variables carried around the loop (assigned in the body, defined at entry), the target names of the
+        enclosing loops, and the environment at loop entry"""
+        assigned = set()
+        for n in ast.walk(ast.Module(body=node.body, type_ignores=[])):
+            if isinstance(n, ast.Name) and isinstance(n.ctx, ast.Store):
+                assigned.add(n.id)
+        own = [t.id for t in ast.walk(node.target) if isinstance(t, ast.Name)]
+        carried = sorted(x for x in assigned if x in st.env and x not in own)
+        outer = []
+        fi = self.program.func(st.env.get("__func__"))
+        if fi is not None:
+            for anc in ast.walk(fi.node):
+                if isinstance(anc, ast.For) and anc is not node and any(ch is node for ch in ast.walk(anc)):
+                    outer.append([t.id for t in ast.walk(anc.target) if isinstance(t, ast.Name)])
+        return Args({"seq": getattr(sp, "seq", None), "carried": carried, "own": own, "outer": outer, "entry_env": dict(st.env)})
+
     def _loop_index(self, L, ordinal, eng, node, sp, st):
         """`for x in <sequence of unknown length>` with a sidecar invariant inv(c, env, i) over the number i
         of elements already processed (0 <= i <= len)."""
         n = sp.n
         entry = Ctx(eng, st.fork())
+        entry.loop = self._loop_roles(node, sp, st)
         for f in L.lemmas(Ctx(eng, st, old=entry), Args(st.env), z3.IntVal(0), None):
             st.assume(f)
         for nm, f in self._loop_inv(L, st, entry, z3.IntVal(0)):
@@ -415,6 +434,7 @@ class Verifier:
     def _loop(self, L, ordinal, eng, node, sp, st):
         ks = sort_of(sp.kt)
         entry = Ctx(eng, st.fork())
+        entry.loop = self._loop_roles(node, sp, st)
         V0 = z3.K(ks, z3.BoolVal(False))
         for nm, f in self._loop_inv(L, st, entry, V0):
             self.add("loop-init", "%d:%s" % (ordinal, nm), st, f)
@@ -475,6 +495,7 @@ class Verifier:
         self.eng.target = qual
         self.obls = []
         self.site_counter = {}
+        self.eng.executed = {}
         t0 = time.time()
         try:
             params = list(fi.params)
@@ -497,6 +518,7 @@ class Verifier:
         except Exception as e:  # engine bug: report as internal error, never as violation
             out["error"] = "internal: %s\n%s" % (e, traceback.format_exc())
         out["gen_s"] = round(time.time() - t0, 3)
+        out["deps"] = dict(self.eng.executed)
         self._solve(out)
         out["wall_s"] = round(time.time() - t0, 3)
         return out
